@@ -4,6 +4,8 @@
 import Drx.Cast
 import Drx.CastSpec
 import DrxProofs.Py
+import Drx.Layout
+import Drx.Gen.CastLayouts
 namespace Drx.Cast
 open Drx
 
@@ -873,5 +875,83 @@ theorem encD5_junk (codec : Codec) (m : Member) (hv : m.valid) (junk : Bytes) (h
     simpa [readField, encField, List.append_assoc] using this
   · have : junk.length ≠ 0 := fun h => hj (List.eq_nil_of_length_eq_zero h)
     simp; omega
+
+/-! ### kind lists vs. the layouts regenerated from the source -/
+
+def FK.width : FK → Nat := FK.size
+def FK.signed : FK → Bool
+  | .u8 => false | .s16 => true | .s32 => true | .u32 => false
+
+/-- (offset, width, signed) of a run of kinds read with a running index starting at `off` -/
+def layoutOf : List FK → Nat → List (Nat × Nat × Bool)
+  | [], _ => []
+  | k :: ks, off => (off, k.width, k.signed) :: layoutOf ks (off + k.size)
+
+def shapeOf (l : List Layout.Field) : List (Nat × Nat × Bool) := l.map fun f => (f.off, f.width, f.signed)
+def namesOf (l : List Layout.Field) : List String := l.map (·.name)
+
+/-- the model's fixed reads outside the nine readers ARE `readFields` over the kind lists -/
+theorem structD4_reads (d : Bytes) :
+    readFields structD4Kinds d 0 =
+      (match getS .be 2 d 0 with
+       | .error e => .error e
+       | .ok hs => match getS .be 4 d 2 with
+         | .error e => .error e
+         | .ok asz => match byteAt d 6 with
+           | .error e => .error e
+           | .ok dt => .ok [hs, asz, (dt.toNat : Int)]) := by
+  simp only [structD4Kinds, readFields, readField, FK.size]
+  cases getS .be 2 d 0 <;> simp only
+  cases getS .be 4 d 2 <;> simp only
+  cases byteAt d 6 <;> rfl
+
+theorem structD5_reads (d : Bytes) :
+    readFields structD5Kinds d 0 =
+      (match getS .be 4 d 0 with
+       | .error e => .error e
+       | .ok dt => match getS .be 4 d 4 with
+         | .error e => .error e
+         | .ok asz => match getS .be 4 d 8 with
+           | .error e => .error e
+           | .ok hs => .ok [dt, asz, hs]) := by
+  simp only [structD5Kinds, readFields, readField, FK.size]
+  cases getS .be 4 d 0 <;> simp only
+  cases getS .be 4 d 4 <;> simp only
+  cases getS .be 4 d 8 <;> rfl
+
+theorem basic_reads (b : Bytes) :
+    readFields basicKinds b 0 =
+      (match getS .be 4 b 0 with
+       | .error e => .error e
+       | .ok ns => match readField .u32 b 4 with
+         | .error e => .error e
+         | .ok sk => match getS .be 4 b 8 with
+           | .error e => .error e
+           | .ok bd1 => match getS .be 4 b 12 with
+             | .error e => .error e
+             | .ok bd2 => match getS .be 4 b 16 with
+               | .error e => .error e
+               | .ok si => .ok [ns, sk, bd1, bd2, si]) := by
+  simp only [basicKinds, readFields, FK.size]
+  show (match getS .be 4 b 0 with | .error e => _ | .ok v => _) = _
+  cases getS .be 4 b 0 <;> simp only
+  cases readField .u32 b 4 <;> simp only
+  show (match getS .be 4 b 8 with | .error e => _ | .ok v => _) = _
+  cases getS .be 4 b 8 <;> simp only
+  show (match getS .be 4 b 12 with | .error e => _ | .ok v => _) = _
+  cases getS .be 4 b 12 <;> simp only
+  show (match getS .be 4 b 16 with | .error e => _ | .ok v => _) = _
+  cases getS .be 4 b 16 <;> rfl
+
+theorem imageTail_reads (h : Bytes) :
+    readFields imageTailKinds h imageTailOff =
+      (match getS .be 2 h 23 with
+       | .error e => .error e
+       | .ok bitdepth => match getS .be 2 h 25 with
+         | .error e => .error e
+         | .ok pid => .ok [bitdepth, pid]) := by
+  simp only [imageTailKinds, imageTailOff, readFields, readField, FK.size]
+  cases getS .be 2 h 23 <;> simp only
+  cases getS .be 2 h 25 <;> rfl
 
 end Drx.Cast
